@@ -158,6 +158,35 @@ def check_misc(ck, prog):
           "worker_start(): the worker's own progress counters are reset in a different critical section (block(s) %s) than "
           "the one that adds the finished Block to coder->progress_in (block(s) %s): lzma_get_progress() can count the "
           "Block twice and report more than the true totals" % (zeros, adds), key="ERR:progress-transfer-atomic")
+    # a worker that puts itself back on the stack of free threads has handed over (zeroed) its own counters on every
+    # path, not only after a finished Block: a worker stopped by an error or a re-initialisation would otherwise add
+    # its stale counters to the totals of the next session
+    enc = [b.id for b, i, e in ws.iter_elems() if any(c.get("fn") == "worker_encode" for c in ex.calls(e, into_refs=False))]
+    push = [b.id for b, i, e in ws.iter_elems() for (l, r, op, n) in ex.writes(e)
+            if ex.field_key(l) == (CODER, "threads_free") and op == "="]
+    if len(enc) != 1 or not push:
+        raise AnalysisBroken("worker_start: worker_encode call / push onto threads_free not found")
+    for fld in ("progress_in", "progress_out"):
+        zs = {b.id for b, i, e in ws.iter_elems() for (l, r, op, n) in ex.writes(e)
+              if ex.field_key(l) == (THR, fld) and r is not None and ex.is_const(r, 0)}
+        seen, st, hit = set(), list(cfg.succs(ws, enc[0])), None
+        if enc[0] in zs:
+            st = []
+        while st:
+            x = st.pop()
+            if x in seen or x in zs:
+                continue
+            seen.add(x)
+            if x in push:
+                hit = x
+                break
+            st.extend(cfg.succs(ws, x))
+        ck.ob("C08-ERR", "progress-zero-before-free:" + fld, hit is None, common.where(ws),
+              "worker_start: thr->%s = 0 on every path from worker_encode() to the push onto threads_free" % fld if hit is None else
+              "worker_start(): a path from the worker_encode() call reaches the push onto coder->threads_free (block %s) "
+              "without thr->%s = 0: a worker stopped in mid-Block (error, re-initialisation) keeps its counters and "
+              "get_progress() of the next session reports more than the true totals" % (hit, fld),
+              key="ERR:progress-zero-before-free:" + fld)
     # ... and the reader takes ONE snapshot: get_progress() reads coder->progress_* and every worker's counters while it
     # holds coder->mutex the whole time (a worker finishing between two separate critical sections is counted twice)
     from sa import lock
@@ -245,3 +274,7 @@ def run(ck):
           "mem_allocated": "counts the cached buffers that are kept"}),
     ])
     ck.floor("C08-OUTQRESET", 2)
+    # the worker's uncompressed-chunk fallback writes lzma_block_buffer_bound-derived sizes into the Block Header: the
+    # bound has to be exact for LZMA2 (rule shared with C02)
+    from . import C02
+    C02.check_bound(ck, prog)
